@@ -86,6 +86,7 @@ type parsNorm struct {
 	depthC int
 	inl    int
 	err    error
+	dead   map[types.Object]bool // integer locals that feed nothing (only counted, or handed to an unused parameter)
 }
 
 func isStateVecType(t types.Type) bool {
@@ -112,6 +113,7 @@ func (c *Ctx) parsSkeleton(fi *FuncInfo) (string, error) {
 			nv++
 		}
 	}
+	pn.dead = c.deadCounters(fi)
 	body := fi.Decl.Body.List
 	// UPPASS: only the inner-node branch is compared (tips differ on purpose)
 	if fi.Obj.Name() == "parsimonyUPPASS" {
@@ -402,6 +404,9 @@ func (pn *parsNorm) stmt(s ast.Stmt) string {
 		}
 		return "if " + ck + " { " + thenS + " } else { " + elseS + " }"
 	case *ast.IncDecStmt:
+		if pn.dead[identObj(info, x.X)] {
+			return ""
+		}
 		if k := pn.cntKey(x.X); k != "" {
 			return k + x.Tok.String()
 		}
@@ -411,6 +416,9 @@ func (pn *parsNorm) stmt(s ast.Stmt) string {
 		}
 		return name + x.Tok.String()
 	case *ast.AssignStmt:
+		if len(x.Lhs) == 1 && pn.dead[identObj(info, x.Lhs[0])] {
+			return ""
+		}
 		if len(x.Lhs) == 1 && len(x.Rhs) == 1 {
 			l, r := x.Lhs[0], x.Rhs[0]
 			// temp / alias declarations
@@ -838,4 +846,74 @@ func (c *Ctx) ownStateUnderNotTip(pk string) {
 		}
 		c.Check(good, "PATH", name+"/only-inner-nodes", fi.Decl.Pos(), "all stores happen under !cur.Tip()", name+" does work outside `if !cur.Tip()`: the state vector of a tip can be overwritten").Clause = "Without random resolution, tip states are never altered"
 	}
+}
+
+// deadCounters: integer locals of fi whose every use is an assignment of a constant, an increment,
+// or an argument bound to a parameter the callee never reads: they influence nothing.
+func (c *Ctx) deadCounters(fi *FuncInfo) map[types.Object]bool {
+	info := fi.Pkg.TypesInfo
+	cand := map[types.Object]bool{}
+	ast.Inspect(fi.Decl.Body, func(m ast.Node) bool {
+		if id, ok := m.(*ast.Ident); ok {
+			if v, ok := info.Defs[id].(*types.Var); ok && !v.IsField() {
+				if b, ok := v.Type().Underlying().(*types.Basic); ok && b.Info()&types.IsInteger != 0 {
+					cand[v] = true
+				}
+			}
+		}
+		return true
+	})
+	walkStack(fi.Decl.Body, func(m ast.Node, st []ast.Node) bool {
+		id, ok := m.(*ast.Ident)
+		if !ok {
+			return true
+		}
+		v := info.Uses[id]
+		if v == nil || !cand[v] || len(st) == 0 {
+			return true
+		}
+		switch p := st[len(st)-1].(type) {
+		case *ast.IncDecStmt:
+			return true
+		case *ast.AssignStmt:
+			for i, l := range p.Lhs {
+				if unparen(l) == ast.Expr(id) {
+					if len(p.Lhs) == len(p.Rhs) {
+						if tv, ok := info.Types[p.Rhs[i]]; ok && tv.Value != nil {
+							return true
+						}
+					}
+					if p.Tok == token.ADD_ASSIGN {
+						return true
+					}
+				}
+			}
+		case *ast.CallExpr:
+			if g := calleeOf(info, p); g != nil {
+				if gi := c.FuncOfObj(g); gi != nil && gi.Decl.Body != nil {
+					for i, a := range p.Args {
+						if unparen(a) != ast.Expr(id) {
+							continue
+						}
+						pp := paramObj(gi.Pkg.TypesInfo, gi.Decl, i)
+						used := false
+						if pp != nil {
+							ast.Inspect(gi.Decl.Body, func(q ast.Node) bool {
+								if id2, ok := q.(*ast.Ident); ok && gi.Pkg.TypesInfo.Uses[id2] == pp {
+									used = true
+								}
+								return !used
+							})
+						}
+						if pp != nil && !used {
+							return true
+						}
+					}
+				}
+			}
+		}
+		delete(cand, v) // a real use
+		return true
+	})
+	return cand
 }
